@@ -6,6 +6,9 @@ import Mathlib.Tactic.Linarith
 import Mathlib.Tactic.NormNum
 import Mathlib.Data.Rat.Defs
 import Mathlib.Algebra.Order.Field.Rat
+import Mathlib.Data.Real.Basic
+import Mathlib.Tactic.Positivity
+import Mathlib.Analysis.SpecialFunctions.Pow.Real
 import AtsimModel.Lemmas.KernelQ
 /-!
 # C02 — DL_POLY TABLE: header, 4-per-record layout, energies and -r dU/dr faithful
@@ -156,6 +159,97 @@ theorem C02_kernel_step (mesh : Rat) (k : Nat) :
 theorem C02_kernel_force (r f : Rat) : evalQ (envQ [r, f]) k_dlpoly_force = r * f := by
   kernel_unfold [k_dlpoly_force]
   kernel_close
+
+/-! ## The grid in floating point: `r = 0.0; r += meshResolution` repeated
+
+`C02_accum` is exact arithmetic.  In binary64 every `r += meshResolution` rounds.  Under the standard model of floating-point arithmetic - each addition
+returns `(a + b)(1 + ε)` with `|ε| ≤ u` (for binary64 `u = 2⁻⁵³`, absent overflow and underflow) - the accumulated abscissa of the k-th row stays within
+`k·δ·((1+u)^k − 1)` of `k·δ`, for EVERY step `δ ≥ 0` and EVERY row count; for `k·u ≤ 1` that is at most `2·k²·u·δ`, i.e. a relative error `≤ 2ku`
+(`2.3e-10` for a million rows): far below the eight significant digits the header prints and the 1e-9 tolerance the real-function stream tests. -/
+
+/-- `r_k` of the loop `r = 0.0; for i in range(k): r += delta` for ANY rounding function `fl` applied to each sum -/
+noncomputable def accumFl (fl : ℝ → ℝ) (delta : ℝ) : Nat → ℝ
+  | 0 => 0
+  | k + 1 => fl (accumFl fl delta k + delta)
+
+/-- **floating-point accumulation bound**: if every rounded result is within relative `u` of the exact one, the k-th abscissa is within `k·δ·((1+u)^k − 1)` of `k·δ` -/
+theorem C02_accum_float (fl : ℝ → ℝ) (u : ℝ) (hu : 0 ≤ u) (hfl : ∀ x, |fl x - x| ≤ u * |x|) (delta : ℝ) (hd : 0 ≤ delta) (k : Nat) :
+    |accumFl fl delta k - (k : ℝ) * delta| ≤ (k : ℝ) * delta * ((1 + u) ^ k - 1) := by
+  induction k with
+  | zero => simp [accumFl]
+  | succ k ih =>
+    have hP : (1 : ℝ) ≤ (1 + u) ^ k := one_le_pow₀ (by linarith)
+    have hk0 : (0 : ℝ) ≤ (k : ℝ) := Nat.cast_nonneg k
+    set r := accumFl fl delta k with hr
+    set P := (1 + u) ^ k with hPdef
+    have h1 := hfl (r + delta)
+    have h2 : |r + delta| ≤ |r - (k : ℝ) * delta| + ((k : ℝ) + 1) * delta := by
+      have : r + delta = (r - (k : ℝ) * delta) + ((k : ℝ) + 1) * delta := by ring
+      rw [this]
+      refine (abs_add_le _ _).trans ?_
+      rw [abs_of_nonneg (a := ((k : ℝ) + 1) * delta) (by positivity)]
+    have h3 : |fl (r + delta) - ((k : ℝ) + 1) * delta| ≤ |fl (r + delta) - (r + delta)| + |r - (k : ℝ) * delta| := by
+      have : fl (r + delta) - ((k : ℝ) + 1) * delta = (fl (r + delta) - (r + delta)) + (r - (k : ℝ) * delta) := by ring
+      rw [this]
+      exact abs_add_le _ _
+    have h4 : u * |r + delta| ≤ u * (|r - (k : ℝ) * delta| + ((k : ℝ) + 1) * delta) :=
+      mul_le_mul_of_nonneg_left h2 hu
+    have h5 : (1 + u) * |r - (k : ℝ) * delta| ≤ (1 + u) * ((k : ℝ) * delta * (P - 1)) :=
+      mul_le_mul_of_nonneg_left ih (by linarith)
+    have h6 : 0 ≤ delta * (1 + u) * (P - 1) := by
+      have : 0 ≤ P - 1 := by linarith
+      positivity
+    show |fl (r + delta) - ((k + 1 : ℕ) : ℝ) * delta| ≤ ((k + 1 : ℕ) : ℝ) * delta * ((1 + u) ^ (k + 1) - 1)
+    rw [pow_succ, ← hPdef]
+    push_cast
+    nlinarith [h1, h3, h4, h5, h6]
+
+/-- for `k·u ≤ 1` the bound is at most `2·k·u` relative to `k·δ` -/
+theorem C02_accum_float_rel (fl : ℝ → ℝ) (u : ℝ) (hu : 0 ≤ u) (hfl : ∀ x, |fl x - x| ≤ u * |x|) (delta : ℝ) (hd : 0 ≤ delta) (k : Nat) (hk : (k : ℝ) * u ≤ 1) :
+    |accumFl fl delta k - (k : ℝ) * delta| ≤ 2 * ((k : ℝ) * u) * ((k : ℝ) * delta) := by
+  have hpow : ∀ j : Nat, (j : ℝ) * u ≤ 1 → (1 + u) ^ j ≤ 1 + (j : ℝ) * u + ((j : ℝ) * u) ^ 2 := by
+    intro j
+    induction j with
+    | zero => intro _; simp
+    | succ j ih =>
+      intro hj
+      push_cast at hj ⊢
+      have hj0 : (0 : ℝ) ≤ (j : ℝ) := Nat.cast_nonneg j
+      have hju : (j : ℝ) * u ≤ 1 := by nlinarith
+      have hju0 : 0 ≤ (j : ℝ) * u := by positivity
+      have ih' := ih hju
+      have h1 : (1 + u) ^ (j + 1) ≤ (1 + (j : ℝ) * u + ((j : ℝ) * u) ^ 2) * (1 + u) := by
+        rw [pow_succ]
+        exact mul_le_mul_of_nonneg_right ih' (by linarith)
+      have h2 : 0 ≤ u ^ 2 * ((j : ℝ) * (1 - (j : ℝ) * u)) := by
+        have : 0 ≤ 1 - (j : ℝ) * u := by linarith
+        positivity
+      nlinarith [h1, h2, sq_nonneg u]
+  have h0 := C02_accum_float fl u hu hfl delta hd k
+  have hk0 : (0 : ℝ) ≤ (k : ℝ) := Nat.cast_nonneg k
+  have hku0 : 0 ≤ (k : ℝ) * u := by positivity
+  have hp := hpow k hk
+  have hsq : ((k : ℝ) * u) ^ 2 ≤ (k : ℝ) * u := by nlinarith
+  have hb : (1 + u) ^ k - 1 ≤ 2 * ((k : ℝ) * u) := by linarith
+  have hkd : 0 ≤ (k : ℝ) * delta := by positivity
+  calc |accumFl fl delta k - (k : ℝ) * delta| ≤ (k : ℝ) * delta * ((1 + u) ^ k - 1) := h0
+    _ ≤ (k : ℝ) * delta * (2 * ((k : ℝ) * u)) := mul_le_mul_of_nonneg_left hb hkd
+    _ = 2 * ((k : ℝ) * u) * ((k : ℝ) * delta) := by ring
+
+/-- binary64, a million rows: relative error of the accumulated abscissa below 2.3e-10 -/
+theorem C02_accum_float_binary64 (fl : ℝ → ℝ) (hfl : ∀ x, |fl x - x| ≤ (2 : ℝ)⁻¹ ^ 53 * |x|) (delta : ℝ) (hd : 0 ≤ delta) (k : Nat) (hk : k ≤ 1000000) :
+    |accumFl fl delta k - (k : ℝ) * delta| ≤ (23 / 100000000000 : ℝ) * ((k : ℝ) * delta) := by
+  have hkR : (k : ℝ) ≤ 1000000 := by exact_mod_cast hk
+  have hk0 : (0 : ℝ) ≤ (k : ℝ) := Nat.cast_nonneg k
+  have hu : (0 : ℝ) ≤ (2 : ℝ)⁻¹ ^ 53 := by positivity
+  have hku : (k : ℝ) * (2 : ℝ)⁻¹ ^ 53 ≤ 1000000 * (2 : ℝ)⁻¹ ^ 53 :=
+    mul_le_mul_of_nonneg_right hkR hu
+  have hc1 : (1000000 : ℝ) * (2 : ℝ)⁻¹ ^ 53 ≤ 1 := by norm_num
+  have hc2 : 2 * ((1000000 : ℝ) * (2 : ℝ)⁻¹ ^ 53) ≤ 23 / 100000000000 := by norm_num
+  have h := C02_accum_float_rel fl _ hu hfl delta hd k (hku.trans hc1)
+  have hkd : 0 ≤ (k : ℝ) * delta := by positivity
+  refine h.trans ?_
+  exact mul_le_mul_of_nonneg_right (by linarith) hkd
 
 /-! ## The code itself: the DL_POLY TABLE writer regenerated from the source
 
